@@ -176,3 +176,147 @@ Proof.
       destruct (keep x); [rewrite <- app_assoc|]; reflexivity. }
   rewrite G by auto. reflexivity.
 Qed.
+
+(* ------------------------------------------------------------------ id lists (PDG ids, status codes) *)
+Lemma existsM_pure {A} (f : A -> bool) l : existsM (fun x => Ok (f x)) l = Ok (existsb f l).
+Proof.
+  induction l as [|x t IH]; [reflexivity|]. cbn [existsM existsb bind]. rewrite IH. destruct (f x); reflexivity.
+Qed.
+Lemma existsM_ok {A} (c : A -> result bool) (f : A -> bool) l :
+  (forall x, In x l -> c x = Ok (f x)) -> existsM c l = Ok (existsb f l).
+Proof.
+  induction l as [|x t IH]; intros H; [reflexivity|]. cbn [existsM existsb].
+  rewrite (H x (or_introl eq_refl)). cbn [bind].
+  rewrite IH by (intros y Hy; apply H; right; exact Hy). destruct (f x); reflexivity.
+Qed.
+Lemma existsb_map {A B} (f : B -> bool) (g : A -> B) l : existsb f (map g l) = existsb (fun x => f (g x)) l.
+Proof. induction l as [|x t IH]; [reflexivity|]. cbn. rewrite IH. reflexivity. Qed.
+Lemma forallb_map {A B} (f : B -> bool) (g : A -> B) l : forallb f (map g l) = forallb (fun x => f (g x)) l.
+Proof. induction l as [|x t IH]; [reflexivity|]. cbn. rewrite IH. reflexivity. Qed.
+Lemma forallb_ext' {A} (f g : A -> bool) l : (forall x, f x = g x) -> forallb f l = forallb g l.
+Proof. intros H. induction l as [|x t IH]; [reflexivity|]. cbn. rewrite H, IH. reflexivity. Qed.
+Lemma existsb_ext' {A} (f g : A -> bool) l : (forall x, f x = g x) -> existsb f l = existsb g l.
+Proof. intros H. induction l as [|x t IH]; [reflexivity|]. cbn. rewrite H, IH. reflexivity. Qed.
+Lemma existsb_false {A} (l : list A) : existsb (fun _ => false) l = false.
+Proof. induction l; [reflexivity|]. cbn. assumption. Qed.
+Lemma forallb_true {A} (l : list A) : forallb (fun _ => true) l = true.
+Proof. induction l; [reflexivity|]. cbn. assumption. Qed.
+
+(* an element constructor under which every element is an integer number *)
+Definition int_ctor (mk : Z -> pyv) : Prop :=
+  forall z, num_of (mk z) = Some (fofZ z) /\ int_of (mk z) = Some z /\ is_seq (mk z) = false.
+Lemma int_ctor_VInt : int_ctor VInt.
+Proof. intros z. repeat split. Qed.
+Lemma int_ctor_VNpInt : int_ctor VNpInt.
+Proof. intros z. repeat split. Qed.
+
+Lemma isnan_any_ints_aux mk zs : int_ctor mk ->
+  (if forallb (fun e => match num_of e with Some _ => true | None => false end) (map mk zs)
+   then Ok (existsb (fun e => match num_of e with Some f => fisnan f | None => false end) (map mk zs))
+   else if existsb is_seq (map mk zs) then Err Unmodelled else Err TypeError) = Ok false.
+Proof.
+  intros H. rewrite forallb_map, existsb_map.
+  rewrite (forallb_ext' _ (fun _ => true)) by (intros z; destruct (H z) as [-> _]; reflexivity).
+  rewrite forallb_true.
+  rewrite (existsb_ext' _ (fun _ => false)) by (intros z; destruct (H z) as [-> _]; reflexivity).
+  rewrite existsb_false. reflexivity.
+Qed.
+Lemma isnan_any_list mk zs : int_ctor mk -> py_isnan_any (VList (map mk zs)) = Ok false.
+Proof. apply isnan_any_ints_aux. Qed.
+Lemma isnan_any_tuple mk zs : int_ctor mk -> py_isnan_any (VTuple (map mk zs)) = Ok false.
+Proof. apply isnan_any_ints_aux. Qed.
+Lemma isnan_any_arr mk zs : int_ctor mk -> py_isnan_any (VArr (map mk zs)) = Ok false.
+Proof. apply isnan_any_ints_aux. Qed.
+
+Definition all_int64 (zs : list Z) : Prop := forallb in_int64 zs = true.
+Lemma mapM_to_int64_VInt zs : all_int64 zs -> mapM to_int64 (map VInt zs) = Ok (map VNpInt zs).
+Proof.
+  unfold all_int64. induction zs as [|z t IH]; intros H; [reflexivity|].
+  cbn [forallb] in H. apply andb_true_iff in H. destruct H as [Hz Ht].
+  cbn [map mapM to_int64]. rewrite Hz. cbn [bind]. rewrite IH by exact Ht. reflexivity.
+Qed.
+Lemma mapM_to_int64_VNpInt zs : mapM to_int64 (map VNpInt zs) = Ok (map VNpInt zs).
+Proof. induction zs as [|z t IH]; [reflexivity|]. cbn [map mapM to_int64 bind]. rewrite IH. reflexivity. Qed.
+Lemma asarray_list zs : all_int64 zs -> py_asarray_int64 (VList (map VInt zs)) = Ok (VArr (map VNpInt zs)).
+Proof. intros H. unfold py_asarray_int64. rewrite mapM_to_int64_VInt by exact H. reflexivity. Qed.
+Lemma asarray_tuple zs : all_int64 zs -> py_asarray_int64 (VTuple (map VInt zs)) = Ok (VArr (map VNpInt zs)).
+Proof. intros H. unfold py_asarray_int64. rewrite mapM_to_int64_VInt by exact H. reflexivity. Qed.
+Lemma asarray_arr zs : py_asarray_int64 (VArr (map VNpInt zs)) = Ok (VArr (map VNpInt zs)).
+Proof. unfold py_asarray_int64. rewrite mapM_to_int64_VNpInt. reflexivity. Qed.
+
+(* int(pdg) in array / float status in array *)
+Lemma py_in_int_arr k zs : py_in (VInt k) (VArr (map VNpInt zs)) = Ok (existsb (Z.eqb k) zs).
+Proof.
+  unfold py_in. rewrite (existsM_ok _ (fun e => match int_of e with Some z => Z.eqb k z | None => false end)).
+  - rewrite existsb_map. reflexivity.
+  - intros x Hx. apply in_map_iff in Hx. destruct Hx as [z [<- _]]. reflexivity.
+Qed.
+Lemma py_not_in_int_arr k zs : py_not_in (VInt k) (VArr (map VNpInt zs)) = Ok (negb (existsb (Z.eqb k) zs)).
+Proof. unfold py_not_in. rewrite py_in_int_arr. reflexivity. Qed.
+Lemma py_in_float_arr v zs : py_in (VFloat v) (VArr (map VNpInt zs)) = Ok (existsb (fun z => feq v (fofZ z)) zs).
+Proof.
+  unfold py_in. rewrite (existsM_ok _ (fun e => match num_of e with Some y => feq v y | None => false end)).
+  - rewrite existsb_map. reflexivity.
+  - intros x Hx. apply in_map_iff in Hx. destruct Hx as [z [<- _]]. reflexivity.
+Qed.
+
+(* ------------------------------------------------------------------ event-level skeletons *)
+Lemma len_zero_test {A} (l : list A) : py_eq (vlen l) (VInt 0) = Ok (match l with [] => true | _ => false end).
+Proof. destruct l; reflexivity. Qed.
+
+Definition vnat (k : nat) : pyv := VInt (Z.of_nat k).
+Definition keep_at (keep : list pobs -> bool) (pl : list (list pobs)) (k : nat) : bool :=
+  match nth_error pl k with Some ev => keep ev | None => false end.
+
+Lemma enum_loop_aux (step : pyv -> pyv * list pobs -> result pyv) (keep : list pobs -> bool) (pl : list (list pobs)) :
+  (forall idxs k ev, nth_error pl k = Some ev ->
+     step (VList idxs) (vnat k, ev) = Ok (VList (if keep ev then idxs ++ [vnat k] else idxs))) ->
+  forall l off idxs, (forall j ev, nth_error l j = Some ev -> nth_error pl (off + j) = Some ev) ->
+  fold_leftM step (combine (map vnat (seq off (length l))) l) (VList idxs)
+  = Ok (VList (idxs ++ map vnat (filter (keep_at keep pl) (seq off (length l))))).
+Proof.
+  intros H. induction l as [|x t IH]; intros off idxs Hl; cbn [length seq map combine fold_leftM filter].
+  - rewrite app_nil_r. reflexivity.
+  - pose proof (Hl 0%nat x eq_refl) as H0. rewrite Nat.add_0_r in H0.
+    rewrite (H idxs off x H0). cbn [bind].
+    rewrite IH by (intros j ev Hj; replace (S off + j)%nat with (off + S j)%nat by lia; apply Hl; exact Hj).
+    unfold keep_at at 2. rewrite H0. destruct (keep x); cbn [map]; [rewrite <- app_assoc|]; reflexivity.
+Qed.
+
+(* "for idx, ev in enumerate(pl): if keep(ev): idxs.append(idx)" *)
+Lemma enum_loop_spec {B} (step : pyv -> pyv * list pobs -> result pyv) (keep : list pobs -> bool) (pl : list (list pobs)) (kont : pyv -> result B) :
+  (forall idxs k ev, nth_error pl k = Some ev ->
+     step (VList idxs) (vnat k, ev) = Ok (VList (if keep ev then idxs ++ [vnat k] else idxs))) ->
+  bind (fold_leftM step (py_enumerate pl) (VList [])) kont
+  = kont (VList (map vnat (filter (keep_at keep pl) (seq 0 (length pl))))).
+Proof.
+  intros H. unfold py_enumerate. change (fun k : nat => VInt (Z.of_nat k)) with vnat.
+  rewrite (enum_loop_aux step keep pl H pl 0 []) by (intros j ev Hj; exact Hj). reflexivity.
+Qed.
+
+Lemma filter_map_comm {A B} (f : B -> bool) (g : A -> B) l : filter f (map g l) = map g (filter (fun x => f (g x)) l).
+Proof. induction l as [|x t IH]; [reflexivity|]. cbn. rewrite IH. destruct (f (g x)); reflexivity. Qed.
+
+Lemma map_nth_seq {A} (d : A) l : map (fun k => nth k l d) (seq 0 (length l)) = l.
+Proof.
+  induction l as [|x t IH]; [reflexivity|]. cbn [length seq map nth]. f_equal.
+  rewrite <- seq_shift, map_map. exact IH.
+Qed.
+
+(* "[pl[idx] for idx in idxs]" for the kept indices *)
+Lemma pick_kept keep (pl : list (list pobs)) :
+  mapM (fun idx => seq_get pl idx) (map vnat (filter (keep_at keep pl) (seq 0 (length pl)))) = Ok (filter keep pl).
+Proof.
+  rewrite (mapM_ok _ (fun idx => match int_of idx with Some z => nth (Z.to_nat z) pl [] | None => [] end)).
+  - f_equal. rewrite map_map. cbn [vnat int_of].
+    rewrite <- (map_nth_seq [] pl) at 3. rewrite filter_map_comm.
+    erewrite map_ext; [|intros k; rewrite Nat2Z.id; reflexivity].
+    f_equal. apply filter_ext_in. intros k Hk. apply in_seq in Hk. unfold keep_at.
+    destruct (nth_error pl k) as [ev|] eqn:E.
+    + rewrite (nth_error_nth _ _ _ E). reflexivity.
+    + apply nth_error_None in E. lia.
+  - intros x Hx. apply in_map_iff in Hx. destruct Hx as [k [<- Hk]]. apply filter_In in Hk. destruct Hk as [Hk _].
+    apply in_seq in Hk. cbn [vnat int_of]. rewrite Nat2Z.id.
+    destruct (nth_error pl k) as [ev|] eqn:E; [|apply nth_error_None in E; lia].
+    rewrite (nth_error_nth _ _ _ E). apply seq_get_nat. exact E.
+Qed.
